@@ -11,6 +11,7 @@
 #include "muduo/base/Thread.h"
 #include "muduo/base/Types.h"
 
+#include <atomic>
 #include <deque>
 #include <vector>
 
@@ -59,7 +60,7 @@ class ThreadPool : noncopyable
   std::vector<std::unique_ptr<muduo::Thread>> threads_;
   std::deque<Task> queue_ GUARDED_BY(mutex_);
   size_t maxQueueSize_;
-  bool running_;
+  std::atomic<bool> running_;  // runInThread() tests it without mutex_
 };
 
 }  // namespace muduo
